@@ -1354,10 +1354,9 @@ def compare_model(cases, res, variant, stream='steps'):
             if act[0] == 's' and act[1] in dead:
                 continue
             if _is_unmodelled(m):
+                # the case left the modelled fragment: what the real step did to shared state (a template
+                # prepared by an include inside matched content, ...) is not in the model from here on
                 res.count('model:unmodelled')
-                if act[0] == 's':
-                    dead.add(act[1])       # this render left the fragment; the others go on
-                    continue
                 break
             res.streams[stream] = res.streams.get(stream, 0) + 1
             if act[0] == 's' and isinstance(m, list) and len(m) > 2 and isinstance(m[2], list) and m[2] and m[2][0] == 'err':
